@@ -32,7 +32,7 @@ func loadProgram(repo, goos string, patterns []string) (*Program, error) {
 		if len(p.Errors) > 0 {
 			return nil, fmt.Errorf("package %s: %v", p.PkgPath, p.Errors[0])
 		}
-		mainPkgPaths[p.PkgPath] = true
+		mainPkgPaths.Store(p.PkgPath, true)
 		if prog.Main == nil {
 			prog.Main = p
 		}
@@ -108,10 +108,15 @@ func verifyFunc(prog *Program, fi *FuncInfo, fc *FuncContract, mode *ModeDef) (r
 		}
 	}
 	for _, l := range fc.Loops {
-		for _, cl := range l.Invs {
+		for _, cl := range append(append([]*Clause{}, l.Invs...), l.Exits...) {
 			for _, t := range cl.Tags {
 				tagset[t] = true
 			}
+		}
+	}
+	for _, ca := range fc.CallAsserts {
+		for _, t := range ca.Clause.Tags {
+			tagset[t] = true
 		}
 	}
 	if s := fc.Opts["safety"]; s != "" {
